@@ -58,7 +58,15 @@ func diffHoldings(before, after []holding, signer int, roles map[int]string) []d
 		if after[i].liquid.Cmp(before[i].liquid) < 0 {
 			add(i, "liquid")
 		}
-		if after[i].staked.Cmp(before[i].staked) < 0 {
+		// a non-signer's stake is measured in whole tokens: one unit per delegation at a slashed validator is rounding
+		tol := int64(0)
+		if i != signer {
+			tol = before[i].inexact
+			if after[i].inexact > tol {
+				tol = after[i].inexact
+			}
+		}
+		if badd(after[i].staked, bi(tol)).Cmp(before[i].staked) < 0 {
 			add(i, "staked")
 		}
 		if after[i].credit.Cmp(before[i].credit) < 0 {
